@@ -353,3 +353,43 @@ pub proof fn lemma_ac_search(a: AhoCorasick, m: Vec<MatchType>, ns: Seq<String>,
         lemma_ac_any(&a, m@, ns, ci, v);
     }
 }
+
+// ---- shake_1 re-merges the plain searches of one (field, cast, case) key: pairs (context entry, needle)
+pub open spec fn any_pair(s: Seq<(MatchType, String)>, ci: bool, x: Seq<char>) -> bool {
+    exists|j: int| 0 <= j < s.len() && member_rel((#[trigger] s[j]).0, ci, x)
+}
+pub open spec fn pairs_split(s: Seq<(MatchType, String)>, c: Seq<MatchType>, ns: Seq<String>) -> bool {
+    c.len() == s.len() && ns.len() == s.len() && forall|i: int| 0 <= i < s.len() ==> c[i] == (#[trigger] s[i]).0 && ns[i] == s[i].1
+}
+pub proof fn lemma_pairs_aligned(s: Seq<(MatchType, String)>, c: Seq<MatchType>, ns: Seq<String>)
+    requires pairs_split(s, c, ns), forall|j: int| 0 <= j < s.len() ==> mt_text((#[trigger] s[j]).0) == s[j].1@,
+    ensures aligned(c, ns),
+{
+    assert forall|i: int| 0 <= i < c.len() implies mt_text(#[trigger] c[i]) == ns[i]@ by { assert(c[i] == s[i].0); }
+}
+pub proof fn lemma_pairs_any(s: Seq<(MatchType, String)>, c: Seq<MatchType>, ns: Seq<String>, ci: bool, x: Seq<char>)
+    requires pairs_split(s, c, ns),
+    ensures any_ctx(c, ci, x) == any_pair(s, ci, x),
+{
+    if any_ctx(c, ci, x) { let i = choose|i: int| 0 <= i < c.len() && member_rel(#[trigger] c[i], ci, x); assert(s[i].0 == c[i]); }
+    if any_pair(s, ci, x) { let j = choose|j: int| 0 <= j < s.len() && member_rel((#[trigger] s[j]).0, ci, x); assert(c[j] == s[j].0); }
+}
+// exactly one of the five vectors grew, by one element at its end
+pub open spec fn grew(a: Seq<Expression>, b: Seq<Expression>) -> bool { b.len() == a.len() + 1 && b.drop_last() =~= a }
+pub open spec fn grew_one(c0: Seq<Expression>, c1: Seq<Expression>, e0: Seq<Expression>, e1: Seq<Expression>, x0: Seq<Expression>, x1: Seq<Expression>,
+    s0: Seq<Expression>, s1: Seq<Expression>, a0: Seq<Expression>, a1: Seq<Expression>) -> bool {
+    ||| (grew(c0, c1) && e1 =~= e0 && x1 =~= x0 && s1 =~= s0 && a1 =~= a0)
+    ||| (c1 =~= c0 && grew(e0, e1) && x1 =~= x0 && s1 =~= s0 && a1 =~= a0)
+    ||| (c1 =~= c0 && e1 =~= e0 && grew(x0, x1) && s1 =~= s0 && a1 =~= a0)
+    ||| (c1 =~= c0 && e1 =~= e0 && x1 =~= x0 && grew(s0, s1) && a1 =~= a0)
+    ||| (c1 =~= c0 && e1 =~= e0 && x1 =~= x0 && s1 =~= s0 && grew(a0, a1))
+}
+// x is the element that was added
+pub open spec fn is_new(x: Expression, c0: Seq<Expression>, c1: Seq<Expression>, e0: Seq<Expression>, e1: Seq<Expression>, x0: Seq<Expression>, x1: Seq<Expression>,
+    s0: Seq<Expression>, s1: Seq<Expression>, a0: Seq<Expression>, a1: Seq<Expression>) -> bool {
+    ||| (c1.len() > c0.len() && x == c1.last())
+    ||| (e1.len() > e0.len() && x == e1.last())
+    ||| (x1.len() > x0.len() && x == x1.last())
+    ||| (s1.len() > s0.len() && x == s1.last())
+    ||| (a1.len() > a0.len() && x == a1.last())
+}
